@@ -1200,8 +1200,10 @@ class DNA(symbolic.Object):
         continue
       if dp.is_categorical and dp.is_subchoice:
         if multi_choice_use_parent_as_key:
-          if dp.subchoice_index == 0:
-            k = _key(dp.parent_spec)
+          # NOTE: sub-choice 0 is not among the decision points of a DNA node
+          # that is bound to a later sub-choice.
+          k = _key(dp.parent_spec)
+          if k not in result:
             result[k] = dict_repr.get(k, None)
         if _needs_subchoice_key(dp):
           k = _key(dp)
